@@ -326,7 +326,7 @@ def replay_violation(P, native, v, scratch):
             return False, 'counterexample needs %d handles: not replayed natively' % op['n'], cs
     # 1. concrete re-run in the model under the same layout
     lf = layout_factory(v['layout'])
-    is_mem = v['clause'].startswith('memory:')
+    is_mem = v['clause'].startswith('memory:') or ':memory:' in v['clause'] or v['clause'].endswith('destructor-once')
     sc, out = driver.run_path(P, cs, [], lf, False, set(v['oracles']), dict(v.get('opts') or {}, target=v['prop'], instrument=(False if is_mem else ('links' if v['prop'] == 'C08' else True))))
     model_trace = scr.normalise(sc.trace)
     model_out = out[0]
